@@ -23,7 +23,7 @@ from vlib.front import unparse, dotted, const_value, AnchorMissing
 from vlib.shape import Shape, Space, Ix, Q, D, BoolT, StrT, NoneT, SizeOf, UNK, is_unk, Arr, Rec, Tup, B
 from obligations.shape_tables import (model_attrs, M, Tmpl, Clu, Chan, Samp, Loc, Spike, Probe, AMP, AMPWH, UM, KA, F, RATE)
 
-FLOOR = 33
+FLOOR = 26
 EXPLANATION = ('shape engine over the summary methods of TemplateModel: every array is typed by index space per axis, physical dimension '
                '(sorter amplitude, whitening, counts, seconds, samples, micrometres, unit factor, kilo) and provenance tags (ptp/max/argmax over '
                'which axis, coordinate component); results are compared with the dimension and provenance the definitions imply')
@@ -170,7 +170,16 @@ def run(ctx):
     else:
         ctx.undecided('C09.U3', wd, '_waveform_durations -> %s' % res)
     pk = [a for a in wd.nodes(ast.Assign) if isinstance(a.value, ast.Call) and (dotted(a.value.func) or '').endswith('argmax') and 'axis=1' in unparse(a.value) and '.max(axis=1)' in unparse(a.value)]
-    ctx.check(bool(pk), 'C09.U3', wd, pk[0] if pk else '_waveform_durations', 'the duration is read at the peak channel (arg-max of the peak-to-peak)', 'the duration is not read at the peak channel')
+    amax = [c for f_ in repo.transparent_closure(wd) for c in f_.calls() if ((dotted(c.func) or '').endswith('argmax') or q.method_name(c) == 'argmax') and
+            (const_value(q.kwarg(c, 'axis')) == 1 or (len(c.args) > 1 and const_value(c.args[-1]) == 1))]
+    amin_only = [c for c in wd.calls() if ((dotted(c.func) or '').endswith('argmin') or q.method_name(c) == 'argmin') and const_value(q.kwarg(c, 'axis')) == 1 and
+                 any(isinstance(n, ast.BinOp) and isinstance(n.op, ast.Sub) for n in ast.walk(c))]
+    if pk:
+        ctx.holds('C09.U3', wd, 'the duration is read at the peak channel (arg-max of the peak-to-peak)', pk[0])
+    elif amin_only or not amax:
+        ctx.violated('C09.U3', wd, (amin_only or ['_waveform_durations'])[0], 'the duration is not read at the peak channel (no arg-max over channels of the peak-to-peak amplitude)')
+    else:
+        ctx.undecided('C09.U3', wd, 'selection of the peak channel in _waveform_durations not in a recognised form', amax[0])
     for pname, tab in (('templates_waveforms_durations', 'self.sparse_templates.data'), ('clusters_waveforms_durations', 'self.sparse_clusters.data')):
         p = repo.lookup_prop(cls, pname)
         g = p['get'] if p and 'get' in p else None
